@@ -27,7 +27,7 @@ mod node_match {
     use sv_parser::{Locate, RefNode};
     include!(concat!(env!("OUT_DIR"), "/node_match.rs"));
 }
-use node_match::{try_locate_addr, NODE_KIND_COUNT};
+use node_match::{node_addr, try_locate, try_locate_addr, NODE_KIND_COUNT};
 
 static CASE_START_MS: AtomicU64 = AtomicU64::new(0);
 static CASE_LIMIT_MS: AtomicU64 = AtomicU64::new(0);
@@ -193,7 +193,10 @@ impl NodeTable {
     }
     fn id(&mut self, n: &RefNode) -> usize {
         let kind = n.to_string();
-        let (addr, tl) = try_locate_addr(n);
+        let addr = node_addr(n);
+        // Locate::try_from asserts that a node's tokens are adjacent; a failing assertion is recorded per node
+        // ("PANIC") instead of aborting the dump, so that the trace spec sees the whole tree
+        let tl: Result<Result<Locate, ()>, ()> = std::panic::catch_unwind(std::panic::AssertUnwindSafe(|| try_locate(n))).map_err(|_| ());
         if let Some(i) = self.ids.get(&(kind.clone(), addr)) {
             return *i;
         }
@@ -205,8 +208,9 @@ impl NodeTable {
             _ => Value::Null,
         });
         self.try_loc.push(match tl {
-            Ok(l) => json!([l.offset, l.len, l.line]),
-            Err(()) => Value::Null,
+            Ok(Ok(l)) => json!([l.offset, l.len, l.line]),
+            Ok(Err(())) => Value::Null,
+            Err(()) => json!([-1, -1, -1]),
         });
         i
     }
